@@ -419,7 +419,7 @@ class DictionaryProperty(Property):
             elif self.spec_version == '2.1':
                 if len(k) > 250:
                     raise DictionaryKeyError(k, "longer than 250 characters")
-            if not re.match(r"^[a-zA-Z0-9_-]+$", k):
+            if not re.fullmatch(r"[a-zA-Z0-9_-]+", k):
                 msg = (
                     "contains characters other than lowercase a-z, "
                     "uppercase A-Z, numerals 0-9, hyphen (-), or "
